@@ -27,6 +27,8 @@ fixed('C09', 'F22', 'c4c1ee6', 'cubic spline forward at the right end-point retu
 fixed('C17', 'F9', '25877ca', 'unconstrained_rational_quadratic_spline(x=100., tail_bound=100.) in float32: IndexError (searchsorted eps absorbed)')
 fixed('C17', 'F16', 'a0a002f', 'spline inverses tested their inputs against [left,right] instead of [bottom,top] (non-square boxes)')
 fixed('C19', 'F13', '2d2104e', 'LeakyReLU log-abs-det dtype was the default dtype, not the dtype of the inputs')
+fixed('C02', 'F29', '25816b3', 'MaskedUMNNAutoregressiveTransform with integrand pre-activations below -37 (weights perturbed by N(0, 0.5^2), inputs around 3.7): ELUPlus = (exp(x) - 1) + 1 rounds to exactly 0 -> log-abs-det -inf on ordinary inputs')
+fixed('C16', 'F29', '25816b3', 'same input: gradient w.r.t. the inputs NaN (log of a zero derivative)')
 fixed('C19', 'F28', '1d63aad', 'Tanh().forward(x) in float32 with |x| >= 9.1 (float64: |x| >= 19.1): log-abs-det = log(1 - tanh(x)**2) = -inf although the float64 / exact value (-16.6 at x = 9) is representable')
 fixed('C01', 'F28', '1d63aad', 'Tanh forward log-abs-det -inf once tanh(x) rounds to one (|x| >= 19.1 in float64): not log|det J| = -2|x| + log 4 + ...')
 fixed('C19', 'F17', 'eea16c3', 'linear_spline inverse built float32 bin boundaries for float64 inputs')
